@@ -197,10 +197,14 @@ def xcorr(x, y=None, maxlags=None, norm='biased'):
 
     .. seealso:: :func:`CORRELATION`.
     """
-    N = len(x)
     if y is None:
         y = x
-    assert len(x) == len(y), 'x and y must have the same length. Add zeros if needed'
+    if len(x) != len(y):
+        # the shorter vector is zero-padded to the length of the longer one
+        N = max(len(x), len(y))
+        x = np.concatenate((x, np.zeros(N - len(x))))
+        y = np.concatenate((y, np.zeros(N - len(y))))
+    N = len(x)
 
     if maxlags is None:
         maxlags = N-1
